@@ -590,6 +590,8 @@ def extract_fn(repo, d, template_text, template_path=None):
                 raise ExtractError(f"lost anchor: SUBST {kind} pattern matches {len(ms)} times: {old[:80]!r}")
             m = ms[0]
             for nm in names:
+                if "$" + nm not in new:
+                    raise ExtractError(f"SUBST {kind}: wildcard ${nm} is not carried over into the replacement (its text would be dropped)")
                 new = new.replace("$" + nm, m.group(nm).strip())
             old_txt = m.group(0)
             _validate_subst(kind, old_txt, new, template_text)
